@@ -1,3 +1,4 @@
+import SieveModel.Generated.LexRules
 import SieveModel.Lemmas.Lex
 import SieveModel.Model.Show
 import SieveModel.Lemmas.Pos
@@ -67,5 +68,10 @@ example : Show.outcome (sb "keep;\n\nfoo;") (Machine.parse [] (sb "keep;\n\nfoo;
 def rejection_is_immediate_statement : Prop :=
   ∀ (T : Table) (toks : List Tok) (s : PState) (n : Nat), Machine.feed T toks {} 0 = .done s n →
     ∃ suffix r, Machine.run T 0 none (toks ++ suffix) {} 0 = .accept r
+
+/-- the lexer rules of `sievelib/parser.py` (names, order, patterns, flags, white space) are the modelled ones -/
+theorem lexer_is_the_modelled_one :
+    Generated.lexRuleNames = TokKind.all.map TokKind.name ∧ Generated.lexRulePatterns = TokKind.patterns ∧
+      Generated.parserPatterns = TokKind.auxPatterns := by decide
 
 end C18
